@@ -39,7 +39,15 @@
     statement about the backup view would be false); operations outside
     [covered]; RemoveAll under a backup-side fault is covered by the
     invariant statement only (entries removed before the failing one stay
-    removed - they were backed up); faults combined with crash points. *)
+    removed - they were backed up); faults combined with crash points.
+
+    The law-level statements are parameterised by [hid]/[anc] (what the base
+    hides: paths at or below a hidden location, its proper ancestors; [nohid]
+    for a base that hides nothing) and the Rollback statements from an
+    arbitrary invariant state ask for [loc_ok hid anc B0] (see Props/C01.v);
+    the [*_documented] theorems at the end of the file are the closed
+    instances for the documented layering (location inside the base tree,
+    hidden by HiddenFS: Proofs/LawsHidden*.v). *)
 From stdpp Require Import gmap.
 From BFS Require Import Spec.Faults Spec.ViewOsfs.
 From BFS Require Import Proofs.LawsOsfsBase Proofs.LawsOsfs Proofs.ConcreteExample.
@@ -47,8 +55,8 @@ From BFS Require Import Proofs.FaultLib Proofs.FaultTry Proofs.FaultRollback Pro
                         Proofs.FaultExample.
 
 Theorem C08_try_backup_single_fault :
-  forall base backup Vb Vk tnb tnk accb acck rhb rhk whb whk B0 tagb tagk,
-  base_laws base Vb Vk tnb accb rhb whb -> backup_laws backup Vb Vk tnk acck rhk whk ->
+  forall base backup Vb Vk tnb tnk accb acck rhb rhk whb whk hid anc B0 tagb tagk,
+  base_laws base Vb Vk tnb accb rhb whb hid anc -> backup_laws backup Vb Vk tnk acck rhk whk ->
   fault_laws base Vb tagb rhb whb -> fault_laws backup Vk tagk rhk whk ->
   links_ok tnb tnk accb acck B0 -> all_small B0 -> swf B0 ->
   forall w p, InvF Vb Vk B0 w -> single (w_faults w) -> snolinkpar (Vb w) p ->
@@ -61,8 +69,8 @@ Proof. exact try_backup_fault. Qed.
 Print Assumptions C08_try_backup_single_fault.
 
 Theorem C08_step_single_fault :
-  forall base backup Vb Vk tnb tnk accb acck rhb rhk whb whk B0 tagb tagk,
-  base_laws base Vb Vk tnb accb rhb whb -> base_laws2 base Vb Vk tnb accb rhb whb ->
+  forall base backup Vb Vk tnb tnk accb acck rhb rhk whb whk hid anc B0 tagb tagk,
+  base_laws base Vb Vk tnb accb rhb whb hid anc -> base_laws2 base Vb Vk tnb accb rhb whb ->
   backup_laws backup Vb Vk tnk acck rhk whk ->
   fault_laws base Vb tagb rhb whb -> fault_laws backup Vk tagk rhk whk ->
   links_ok tnb tnk accb acck B0 -> all_small B0 -> swf B0 ->
@@ -77,8 +85,8 @@ Proof. exact step_fault. Qed.
 Print Assumptions C08_step_single_fault.
 
 Theorem C08_history_single_fault :
-  forall base backup Vb Vk tnb tnk accb acck rhb rhk whb whk B0 tagb tagk,
-  base_laws base Vb Vk tnb accb rhb whb -> base_laws2 base Vb Vk tnb accb rhb whb ->
+  forall base backup Vb Vk tnb tnk accb acck rhb rhk whb whk hid anc B0 tagb tagk,
+  base_laws base Vb Vk tnb accb rhb whb hid anc -> base_laws2 base Vb Vk tnb accb rhb whb ->
   backup_laws backup Vb Vk tnk acck rhk whk ->
   fault_laws base Vb tagb rhb whb -> fault_laws backup Vk tagk rhk whk ->
   all_small B0 ->
@@ -135,3 +143,20 @@ Theorem C08_fault_example :
     (spent wf1' -> r = MOk tt).
 Proof. exact run_fault_concrete_instance. Qed.
 Print Assumptions C08_fault_example.
+
+(** every covered operation under a single fault, closed, for the DOCUMENTED
+    layering (location inside the base tree, hidden by HiddenFS: Proofs/LawsHidden.v) *)
+From BFS Require Import Spec.ViewHidden Proofs.LawsHidden.
+
+Theorem C08_step_single_fault_documented :
+  forall pa h, prefix_ok pa -> hidden_ok h ->
+  forall B0, links_ok clean clean (acc_h pa h) (acc_p (pk_h pa h)) B0 -> all_small B0 -> swf B0 ->
+  forall o w, InvF (VpH pa h) (Vp (pk_h pa h)) B0 w -> single (w_faults w) -> covered (VpH pa h) o w ->
+  exists r w', step (cfg_base (dcfg pa h)) (cfg_backup (dcfg pa h)) o w = (r, w') /\ r <> MHalt /\
+    w_crash w' = None /\ w_faults w' = w_faults w /\
+    (kind_stable (VpH pa h) w' -> InvF (VpH pa h) (Vp (pk_h pa h)) B0 w') /\ infos_ext_in w w' (op_touches o) /\
+    (spent w -> spent w') /\
+    (takes_backup o = true -> no_base_fault TBase w -> ~ spent w -> spent w' ->
+     (exists e, r = MErr e) /\ VpH pa h w' = VpH pa h w).
+Proof. exact step_fault_documented. Qed.
+Print Assumptions C08_step_single_fault_documented.
